@@ -172,6 +172,7 @@ type adminOp struct {
 	acquired   bool
 	list       []types.Replica
 	lastList   []types.Replica
+	ctrlSize   int64 // the controller's idea of the volume size when the request took the lock
 	checkpoint string
 	addsBefore int64
 	missed     map[string]bool
@@ -745,6 +746,7 @@ func (cr *clRun) onAcquire(lock interface{}, g *simrt.G, write bool) {
 				a.acquired = true
 				a.list = a.lastList
 				a.checkpoint = cr.c.ctrl.Checkpoint
+				a.ctrlSize = cr.c.ctrl.GetSize()
 			}
 		}
 		return
@@ -1077,7 +1079,7 @@ func (cr *clRun) judgeIO(o *ioOp) {
 			if cr.lockFree() {
 				for _, a := range attached {
 					if !applied[a] && modeOf(cur, a) != "" && modeOf(cur, a) != types.ERR && cr.epoch[a] == o.epochs[a] {
-						cr.viol("C02", "laggard-still-attached", "write %d acknowledged; %s did not apply it but is still listed as %s", o.idx, a, modeOf(cur, a))
+						cr.viol(cr.c02or05(), "laggard-still-attached", "write %d acknowledged; %s did not apply it but is still listed as %s", o.idx, a, modeOf(cur, a))
 						return
 					}
 				}
@@ -1129,7 +1131,7 @@ func (cr *clRun) judgeIO(o *ioOp) {
 			cur := cr.c.ctrl.ListReplicas()
 			for _, a := range attached {
 				if !okReply[a] && modeOf(cur, a) != "" && modeOf(cur, a) != types.ERR && cr.epoch[a] == o.epochs[a] {
-					cr.viol("C02", "laggard-still-attached", "%s %d acknowledged; %s did not answer it successfully but is still listed as %s", o.kind, o.idx, a, modeOf(cur, a))
+					cr.viol(cr.c02or05(), "laggard-still-attached", "%s %d acknowledged; %s did not answer it successfully but is still listed as %s", o.kind, o.idx, a, modeOf(cur, a))
 					return
 				}
 			}
@@ -1164,6 +1166,14 @@ func (cr *clRun) judgeIO(o *ioOp) {
 		}
 	}
 	if o.kind == "r" && o.n > 0 {
+		if o.err == nil && int64(o.ret) != o.n {
+			// "if no RW replica exists the read fails": Controller.ReadAt is an
+			// io.ReaderAt, a short count must come with an error. (The initiator-side
+			// glue treats n != len as a failure anyway, which is why this never shows
+			// up as wrong data.)
+			cr.viol("C04", "read-failed-without-error", "read %d off=%d len=%d returned n=%d with a nil error (list when it took effect: %v)", o.idx, o.off, o.n, o.ret, o.list)
+			return
+		}
 		if o.ok() {
 			cr.compares++
 			if ok, why, bad := cr.m.check2(o.buf, o.off, false); !ok {
@@ -1366,6 +1376,15 @@ func (cr *clRun) checkIdleImages(pre map[string]*idleImage) {
 	}
 }
 
+// c02or05: "a replica that failed an operation is detached" is stated by both C02
+// and C05; in a C05 run the clause is reported under C05.
+func (cr *clRun) c02or05() string {
+	if cr.s.Prop == "C05" {
+		return "C05"
+	}
+	return "C02"
+}
+
 // appliedBy inspects every replica directory: does it hold this write's stamp?
 func (cr *clRun) appliedBy(o *ioOp) map[string]bool {
 	out := map[string]bool{}
@@ -1555,7 +1574,7 @@ func (clustersim) Generate(rng *Rand, prop, tier string) *Script {
 		if prop == "C04" && rng.Bool(40) {
 			k = "r"
 		}
-		if prop == "C02" && rng.Bool(15) {
+		if (prop == "C02" || prop == "C05") && rng.Bool(15) {
 			k = "sync" // the flush path has its own majority count
 		}
 		op := Op{K: k}
